@@ -541,8 +541,12 @@ def r6(ctx):
         for bi, t in callers[pth]:
             if t.callee() != H + "notify_unverifiable_enr":
                 continue
-            a = cp.operand(t.args[3])
             rule.analysed(cb)
+            if len(t.args) < 4:
+                rule.fail("unverifiable|caller|%s" % strip_closure(pth).split("::")[-1], "%s no longer hands notify_unverifiable_enr the authenticated node id: the id reported "
+                          "as unverifiable (and removed from the routing table by the service) comes from the record, which the remote party chooses" % pth, loc=cb.loc(t.line))
+                continue
+            a = cp.operand(t.args[3])
             rule.check(roots(a) == {("field", ("upvar", "node_address"), "node_id")},
                        "%s: UnverifiableEnr.node_id = node_address.node_id" % strip_closure(pth).split("::")[-1],
                        "unverifiable|caller|%s" % strip_closure(pth).split("::")[-1],
